@@ -3,6 +3,9 @@
 D9   ORDER BY an expression on a compound (UNION) SELECT: SQL only allows output column names there.
 D10  a projection drops a column an upstream sort still needs (compound SELECT operands, or the
      projection-over-deduplication rule): the ORDER BY is compiled against columns that are gone.
+D23  backtracking a projection past an existing projection replaces the latter by Identity; when that projection
+     hid a column which a later calculation re-defines, the hidden column leaks back and the re-applied calculation
+     finds its tag already present.
 D11  a chain operand that is itself a chain compiles to a parenthesised compound SELECT, which SQLite rejects;
      the SQL text is pinned by tests/test_sql_engine.py::test_chains so it cannot be repaired here.
 """
@@ -43,6 +46,18 @@ def trig_sort_column_dropped(prog):
     for n in walk(prog):
         if n[0] == "proj" and not sort_columns_below(n[1]) <= frozenset(n[2]):
             return True
+    return False
+
+
+def trig_recalculated_hidden_tag(prog, leaves):
+    """A calculation re-defines a tag that exists further upstream (an intermediate projection had hidden it)."""
+    from .prog import schema
+
+    for n in walk(prog):
+        if n[0] == "calc":
+            for m in walk(n[1]):
+                if m is not n[1] and n[2] in schema(m, leaves):
+                    return True
     return False
 
 
